@@ -3,6 +3,7 @@ import AITB.Model.Learners
 import AITB.Model.LearnersCheck
 import AITB.Model.Dyna2
 import AITB.Model.PSGeneric
+import AITB.Model.LearnPolicies
 open AITB AITB.Learn
 
 /-!  C11 protocol handlers.
@@ -46,7 +47,7 @@ def showRows (r : Rows) : String := " ; ".intercalate (r.map (fun row => " ".int
 
 def component (L : String) : String :=
   match L with
-  | "ql" => "QLearning" | "hyst" => "HystereticQLearning" | "sarsa" => "SARSA" | "esarsa" => "ExpectedSARSA"
+  | "ql" => "QLearning" | "hyst" => "HystereticQLearning" | "sarsa" => "SARSA" | "esarsa" => "ExpectedSARSA" | "esarsap" => "ExpectedSARSA"
   | "dq" => "DoubleQLearning" | "dyna" => "DynaQ" | "sarsal" => "SARSAL"
   | "c-ql" => "QL" | "c-retrace" => "RetraceL" | "c-tb" => "TreeBackupL" | "c-is" => "ImportanceSampling"
   | "e-ql" => "QLEvaluation" | "e-retrace" => "RetraceLEvaluation" | "e-tb" => "TreeBackupLEvaluation"
@@ -60,16 +61,17 @@ structure StepIn where
   r : Rat
   α : Rat
   β : Rat
+  γ : Rat := 0       -- the discount in force at that step (one-step learners: `setDiscount` between steps)
 
 def stepIn : P StepIn := do
-  let s ← P.nat; let a ← P.nat; let s1 ← P.nat; let a1 ← P.nat; let r ← P.q; let α ← P.q; let β ← P.q
-  pure ⟨s, a, s1, a1, r, α, β⟩
+  let s ← P.nat; let a ← P.nat; let s1 ← P.nat; let a1 ← P.nat; let r ← P.q; let α ← P.q; let β ← P.q; let γ ← P.q
+  pure ⟨s, a, s1, a1, r, α, β, γ⟩
 
 def stepTD (L : String) (γ : Rat) (A : Nat) (π : QF) (q : QF) (e : StepIn) : QF :=
   match L with
   | "hyst" => hystStep γ e.α e.β A q e.s e.a e.s1 e.r
   | "sarsa" => sarsaStep γ e.α q e.s e.a e.s1 e.a1 e.r
-  | "esarsa" => esarsaStep γ e.α A π q e.s e.a e.s1 e.r
+  | "esarsa" | "esarsap" => esarsaStep γ e.α A π q e.s e.a e.s1 e.r
   | _ => qlStep γ e.α A q e.s e.a e.s1 e.r      -- ql, dyna (DynaQ::stepUpdateQ forwards to its QLearning)
 
 def inRange (S A : Nat) (e : StepIn) : Bool := e.s < S && e.a < A && e.s1 < S && e.a1 < A
@@ -100,6 +102,10 @@ def dqPick (γ α : Rat) (S A : Nat) (pa pc : Rows) (e : StepIn) (out outC : Row
     1 = start at Q* of a deterministic MDP + fixed-point clause, 2 = arbitrary start (correspondence only) -/
 def td : P String := do
   let L ← P.tok; let S ← P.nat; let A ← P.nat; let γ ← P.q; let rmin ← P.q; let rmax ← P.q; let mode ← P.nat
+  -- "esarsap": the policy is an OBJECT over the learner's own table (1 = QGreedyPolicy, 2 = EpsilonPolicy(QGreedyPolicy, ε2)),
+  -- re-evaluated from the current table at every step (model: AITB.Learn.polOf / esarsaStepP)
+  let pk ← if L == "esarsap" then P.nat else pure 0
+  let ε2 ← if L == "esarsap" then P.q else pure 0
   let πrows ← if L == "esarsa" then tab S A else pure []
   let init ← tab S A
   let initC ← if L == "dq" then tab S A else pure []
@@ -107,10 +113,12 @@ def td : P String := do
   let n ← P.nat
   if A == 0 || S == 0 || !(decide (0 ≤ γ)) then P.fail
   let comp := component L
-  let π := ofRows πrows
-  let lo := loC rmin γ
-  let hi := hiC rmax γ
-  let slack := tolRun * (1 + absQ lo + absQ hi)
+  let πm := ofRows πrows
+  -- the policy as a function of the table it reads (materialised per use: closures must not pile up)
+  let πOf : Rows → QF := fun rows => if pk == 0 then πm else ofRows (toRows S A (polOf pk ε2 A πm (ofRows rows)))
+  if pk != 0 && !(decide (0 ≤ ε2) && decide (ε2 ≤ 1)) then P.fail
+  let mut γmax := γ
+  let mut discChanged := false
   let isDQ := L == "dq"
   -- hypotheses of the clauses, checked by the driver itself
   let zeroStart := init.all (fun r => r.all (· == 0)) && initC.all (fun r => r.all (· == 0))
@@ -123,6 +131,9 @@ def td : P String := do
   let mut mdl := init
   let mut mdlC := initC
   let mut v : Verdict := { tag := s!"td-{L}-m{mode}" }
+  -- mode 0: the start table is what the constructor produced ("zero-initialised tables" is a clause of the property)
+  if mode == 0 && L != "esarsa" && L != "esarsap" then
+    v := v.failIf (!zeroStart) s!"{comp} table_not_zero_initialised start={showRows init}"
   let mut exact := 0
   let mut nxt : List ((Nat × Nat) × Nat) := []
   let mut hypOK := true
@@ -136,22 +147,37 @@ def td : P String := do
     let qp := ofRows prev
     -- (L2b) one model step from the implementation's own previous state
     let (m1, m1C, coin, a1) :=
-      if isDQ then dqPick γ e.α S A prev prevC e out outC
-      else (toRows S A (stepTD L γ A π qp e), [], true, 0)
-    let bad := !(closeRows tolStep m1 out) || (isDQ && !(closeRows tolStep m1C outC))
+      if isDQ then dqPick e.γ e.α S A prev prevC e out outC
+      else (toRows S A (stepTD L e.γ A (πOf prev) qp e), [], true, 0)
+    -- policy-object runs start from tables with entries ~2^21: the expectation is rounded at that magnitude (absolute ~1e-10) and
+    -- lands in an entry of magnitude ~1, so the comparison is scaled by the largest magnitude in the table
+    -- (and in the table BEFORE the step: with α = 1 the new entry is `q + (target − q)`, rounded at the magnitude of the old q)
+    let scAll := 1 + maxAbsRows prev + maxAbsRows out
+    let cmp := fun (tol : Rat) (x y : Rows) =>
+      if L == "esarsap" then
+        x.length == y.length && (x.zip y).all (fun (u, w) => u.length == w.length && (u.zip w).all (fun (p, q) => decide (absQ (p - q) ≤ tol * scAll)))
+      else closeRows tol x y
+    let bad := !(cmp tolStep m1 out) || (isDQ && !(closeRows tolStep m1C outC))
     v := v.diffIf bad s!"{comp} step {k} from-impl-state model={showRows m1} impl={showRows out}"
     if eqRows m1 out && (!isDQ || eqRows m1C outC) then exact := exact + 1
     -- pure model trajectory
     let (mm, mmC) :=
       if isDQ then
-        let d := dqStepAt γ e.α ⟨ofRows mdl, ofRows mdlC⟩ coin a1 e.s e.a e.s1 e.r
+        let d := dqStepAt e.γ e.α ⟨ofRows mdl, ofRows mdlC⟩ coin a1 e.s e.a e.s1 e.r
         (toRows S A d.qa, toRows S A d.qc)
-      else (toRows S A (stepTD L γ A π (ofRows mdl) e), [])
-    v := v.diffIf (!(closeRows tolRun mm out) || (isDQ && !(closeRows tolRun mmC outC)))
+      else (toRows S A (stepTD L e.γ A (πOf mdl) (ofRows mdl) e), [])
+    v := v.diffIf (!(cmp tolRun mm out) || (isDQ && !(closeRows tolRun mmC outC)))
       s!"{comp} step {k} trajectory model={showRows mm} impl={showRows out}"
     -- (L3) clause 1: bounds on the implementation's own tables
     let okEv := decide (rmin ≤ e.r) && decide (e.r ≤ rmax) && decide (0 < e.α) && decide (e.α ≤ 1) && decide (0 ≤ e.β) && decide (e.β ≤ 1)
+      && decide (0 ≤ e.γ) && decide (e.γ < 1)
     if !okEv then hypOK := false
+    -- `setDiscount` between steps: the interval is the hull interval of the largest discount used so far (theorems *_bounded_discounts)
+    if γmax < e.γ then γmax := e.γ
+    let lo := loC rmin γmax
+    let hi := hiC rmax γmax
+    let slack := tolRun * (1 + absQ lo + absQ hi)
+    if e.γ != γ then discChanged := true
     if boundsClause && hypOK then
       match firstOutside lo hi slack out with
       | some (s, a, x) => v := v.failIf true s!"{comp} td_out_of_bounds step {k} entry ({s},{a}) = {ratStr x} outside [{ratStr lo},{ratStr hi}]"
@@ -170,9 +196,9 @@ def td : P String := do
         | some s1' => s1' == e.s1
         | none => true
       if (lookupNext nxt (e.s, e.a)).isNone then nxt := ((e.s, e.a), e.s1) :: nxt
-      let hyp := consistent && e.r == q0 e.s e.a - γ * mx
+      let hyp := consistent && e.γ == γ && e.r == q0 e.s e.a - γ * mx
         && (L != "sarsa" || q0 e.s1 e.a1 == mx)
-        && (L != "esarsa" || expectedQ A π q0 e.s1 == mx)
+        && (!(L == "esarsa" || L == "esarsap") || expectedQ A (πOf starRows) q0 e.s1 == mx)
         && (!isDQ || initC == starRows.map (fun r => r.map (· * 2)))
       if !hyp then hypS := false
       if hypS then
@@ -189,6 +215,7 @@ def td : P String := do
   if (mode == 1 || mode == 3) && hypS && starSteps > 0 then v := { v with tag := v.tag ++ " qstar" }
   if mode == 0 && !(boundsClause && hypOK) then v := { v with tag := v.tag ++ " bounds-hyp-not-met" }
   if exact == n then v := { v with tag := v.tag ++ " exact" }
+  if discChanged then v := { v with tag := v.tag ++ " setDiscount" }
   if n == 0 then v := { v with tag := v.tag ++ " trivial" }
   return v.render
 
@@ -223,24 +250,50 @@ def oneStep (L : String) (γ α ε : Rat) (A : Nat) (πt : QF) (q : QF) (e : Ste
   else if L.startsWith "c-" then upd q e.s e.a (q e.s e.a + α * (e.r + γ * expectedEps ε A q e.s1 - q e.s e.a))
   else upd q e.s e.a (q e.s e.a + α * (e.r + γ * sumTo A (fun x => q e.s1 x * πt e.s1 x) - q e.s e.a))
 
-/-- `tr L S A γ α λ tol ε πt πb init n steps…`, step = `s a s1 a1 r  k (s a el)*k  table` -/
-def tr : P String := do
+/-- `tr L S A γ α λ tol ε πt πb init n events…`, event = `0 s a s1 a1 r  k (s a el)*k  table` (stepUpdateQ) |
+    `1 traces table` (clearTraces) | `2 traces table` (caller keeps getTraces()) | `3 traces table` (setTraces(kept)).
+    `trp` (withObj): after ε come `kt εt kb εb tt[S×A] tb[S×A]`: target / behaviour are policy OBJECTS (1 = QGreedyPolicy over `tt`/`tb`,
+    2 = EpsilonPolicy(QGreedyPolicy) with εt / εb, 0 = the stored matrix that follows); their probabilities are computed by the
+    model of the objects (`polOf`), never taken from the implementation. -/
+def trCore (withObj : Bool) : P String := do
   let L ← P.tok; let S ← P.nat; let A ← P.nat
   let γ ← P.q; let α ← P.q; let lam ← P.q; let tol ← P.q; let ε ← P.q
-  let πtR ← tab S A; let πbR ← tab S A
+  let kt ← if withObj then P.nat else pure 0
+  let εt ← if withObj then P.q else pure 0
+  let kb ← if withObj then P.nat else pure 0
+  let εb ← if withObj then P.q else pure 0
+  let ttR ← if withObj then tab S A else pure []
+  let tbR ← if withObj then tab S A else pure []
+  let πtR0 ← tab S A; let πbR0 ← tab S A
+  let πtR := if kt == 0 then πtR0 else toRows S A (polOf kt εt A (ofRows πtR0) (ofRows ttR))
+  let πbR := if kb == 0 then πbR0 else toRows S A (polOf kb εb A (ofRows πbR0) (ofRows tbR))
   let init ← tab S A
+  let fresh ← P.nat        -- 1: `init` is the constructor's own table (no setQFunction)
   let n ← P.nat
   if A == 0 || S == 0 then P.fail
   let comp := component L
   let πt := ofRows πtR; let πb := ofRows πbR
+  -- the parameters may be changed between steps through the setters (events 4..8)
+  let mut γ := γ
+  let mut α := α
+  let mut lam := lam
+  let mut tol := tol
+  let mut ε := ε
+  let mut paramChanged := false
+  let mut tolChanged := false
   let isIS := kindOf L == .is && L != "sarsal"
   let lamFamily := !isIS
   let mut prevT : List Tr := []
   let mut prev := init
   let mut mT : List Tr := []
   let mut mQ := init
-  let mut v : Verdict := { tag := s!"tr-{L}" ++ (if lam == 0 then "-lam0" else "") }
+  let mut v : Verdict := { tag := s!"tr-{L}" ++ (if lam == 0 then "-lam0" else "") ++ (if withObj then s!" obj{kt}{kb}" else "") }
   let mut ill := false
+  if fresh == 1 then
+    v := v.failIf (!(init.all (fun r => r.all (· == 0)))) s!"{comp} table_not_zero_initialised start={showRows init}"
+  let mut savedT : List Tr := []      -- the list the caller kept (implementation's own output at the time)
+  let mut savedM : List Tr := []      -- its counterpart on the pure model trajectory
+  let mut nBook := 0
   let mut maxLen := 0
   -- clause 2 applies when the samples come from a deterministic MDP whose Q* is the start table and the
   -- learner's target is greedy (control learners with ε = 0; SARSA(λ) with greedy next actions)
@@ -250,16 +303,49 @@ def tr : P String := do
   let mut starSteps := 0
   -- clause 1 at λ = 0 (theorems control|eval|sarsal_lambda0_bounded): zero start, γ < 1, α ∈ (0,1], ε ∈ [0,1], target rows
   -- are distributions; the interval is the hull of the rewards seen so far
-  let isDistRows (rows : Rows) : Bool := rows.all (fun r => r.all (fun x => decide (0 ≤ x)) && r.foldl (· + ·) 0 == 1)
+  -- sub-stochastic rows suffice (theorem eval_lambda0_bounded_sub; checker `subDistRows`, sound by `subDistRows_iff`): the greedy
+  -- policy objects sum to less than one on near-ties
+  let isDistRows (rows : Rows) : Bool := subDistRows rows
   let bndClause := lamFamily && lam == 0 && init.all (fun r => r.all (· == 0)) && decide (0 ≤ γ) && decide (γ < 1)
     && decide (0 < α) && decide (α ≤ 1) && decide (0 ≤ ε) && decide (ε ≤ 1) && (!(L.startsWith "e-") || isDistRows πtR)
   let mut rlo : Rat := 0
   let mut rhi : Rat := 0
   for k in [0:n] do
+    let ev ← P.nat
+    if ev != 0 then
+      -- trace bookkeeping through the public interface: the table must not move, the list is [] / unchanged / the kept one
+      let val ← if ev ≥ 4 then P.q else pure 0
+      let outT ← traces
+      let out ← tab S A
+      if ev == 4 then γ := val
+      if ev == 5 then lam := val
+      if ev == 6 then α := val
+      if ev == 7 then
+        tol := val; tolChanged := true
+      if ev == 8 then ε := val
+      if ev ≥ 4 then
+        paramChanged := true; hypS := false
+      if ill then continue
+      let expT := if ev == 1 then [] else if ev == 3 then savedT else prevT
+      v := v.diffIf (!(expT == outT)) s!"{comp} event {k} kind={ev} traces expected={showTraces expT} impl={showTraces outT}"
+      v := v.diffIf (!(eqRows out prev)) s!"{comp} event {k} kind={ev} moved the table impl={showRows out}"
+      if lamFamily && decide (tol ≤ 1) && !tolChanged then
+        v := v.failIf (!(tracesInRange tol outT)) s!"{comp} trace_out_of_range event {k} kind={ev} traces={showTraces outT} tol={ratStr tol}"
+      v := v.failIf (!(tracesNodup outT)) s!"{comp} trace_duplicate event {k} kind={ev} traces={showTraces outT}"
+      if ev == 2 then
+        savedT := outT; savedM := mT
+      if ev == 1 then mT := []
+      if ev == 3 then mT := savedM
+      prevT := outT; prev := out
+      nBook := nBook + 1
+      -- the window re-synchronisation of the pure trajectory must not be skipped when its boundary falls on a bookkeeping call
+      if (k + 1) % window == 0 then
+        mT := outT; mQ := out
+      continue
     let s ← P.nat; let a ← P.nat; let s1 ← P.nat; let a1 ← P.nat; let r ← P.q
     if r < rlo then rlo := r
     if rhi < r then rhi := r
-    let e : StepIn := ⟨s, a, s1, a1, r, α, 0⟩
+    let e : StepIn := ⟨s, a, s1, a1, r, α, 0, γ⟩
     let outT ← traces
     let out ← tab S A
     if !(inRange S A e) then P.fail
@@ -280,13 +366,16 @@ def tr : P String := do
     v := v.diffIf (!(closeTraces tolStep t1 outT)) s!"{comp} step {k} traces model={showTraces t1} impl={showTraces outT}"
     v := v.diffIf (!(closeRowsScaled tolS r1 out)) s!"{comp} step {k} table from-impl-state model={showRows r1} impl={showRows out}"
     -- pure trajectory
-    let ((t2, q2), _) := stepTR L γ α lam tol ε A πt πb mT (ofRows mQ) e
+    let ((t2, q2), tdM) := stepTR L γ α lam tol ε A πt πb mT (ofRows mQ) e
     let r2 := toRows S A q2
+    -- the same ill-conditioned cut-off decision on the TRAJECTORY's own traces: the implementation's eligibility may have been
+    -- rounded onto the cut-off exactly (kept) while the exact rational sits one ulp below it (pruned); not comparable, re-synchronised
+    let nearCutM := mT.any (fun t => !(t.s == s && t.a == a) && (t.el * tdM != tol) && closeQ tolStep (t.el * tdM) tol)
     -- the control learners' trace discount depends on WHICH action attains the max at s1: when the trajectory
     -- table has a near-tie there, one ulp decides and the trajectory is not comparable (it is re-synchronised)
     let qm := ofRows mQ
     let mAm := argmaxA A (qm s1)
-    let nearTie := L.startsWith "c-" && (List.range A).any (fun x => x != mAm && closeQ tolRun (qm s1 x) (qm s1 mAm))
+    let nearTie := nearCutM || (L.startsWith "c-" && (List.range A).any (fun x => x != mAm && closeQ tolRun (qm s1 x) (qm s1 mAm)))
     v := v.diffIf (!nearTie && !(closeRowsScaled tolR r2 out)) s!"{comp} step {k} table trajectory model={showRows r2} impl={showRows out}"
     -- (L3) trace clauses on the implementation's own list
     if lamFamily && decide (tol ≤ 1) then
@@ -294,7 +383,7 @@ def tr : P String := do
     if lamFamily && !(decide (tol ≤ 1)) then
       v := v.failIf (!(tracesInRange tol outT)) s!"{if L == "sarsal" then "SARSAL" else "OffPolicyBase"} trace_below_cutoff_above_one step {k} learner={comp} traces={showTraces outT} tol={ratStr tol}"
     v := v.failIf (!(tracesNodup outT)) s!"{comp} trace_duplicate step {k} traces={showTraces outT}"
-    if bndClause then
+    if bndClause && !paramChanged then
       let lo := loC rlo γ
       let hi := hiC rhi γ
       let slack := tolRun * (1 + absQ lo + absQ hi)
@@ -327,9 +416,14 @@ def tr : P String := do
   if ill then return "skip ill_conditioned"
   if n == 0 then v := { v with tag := v.tag ++ " trivial" }
   if starSteps > 0 && starSteps == n then v := { v with tag := v.tag ++ " qstar" }
-  if bndClause then v := { v with tag := v.tag ++ " bounds" }
+  if bndClause && !paramChanged then v := { v with tag := v.tag ++ " bounds" }
+  if paramChanged then v := { v with tag := v.tag ++ " setters" }
+  if nBook > 0 then v := { v with tag := v.tag ++ " bookkeeping" }
   v := { v with tag := v.tag ++ s!" len{if maxLen > 3 then 4 else maxLen}" }
   return v.render
+
+def tr : P String := trCore false
+def trp : P String := trCore true
 
 /-! ### PrioritizedSweeping -/
 
@@ -360,7 +454,14 @@ def ps : P String := do
   let T ← P.rep P.q (S * A * S)
   let R ← tab S A
   let R3 ← P.rep P.q (S * A * S)
-  let order ← P.list (do let s ← P.nat; let a ← P.nat; pure (s, a))
+  -- public calls before the drain: `1 s a` = stepUpdateQ(s,a), `2 table` = setQFunction(table) (replaces the table only: the value
+  -- function and the queue stay as they are)
+  -- `3 T[S*A*S] R[S×A]` = the model the planner refers to was re-synced (MaximumLikelihoodModel over growing experience)
+  let ops ← P.list (do
+    let c ← P.nat
+    if c == 1 then (do let s ← P.nat; let a ← P.nat; pure (some (s, a), ([] : Rows), ([] : List Rat)))
+    else if c == 2 then (do let t ← tab S A; pure (none, t, []))
+    else (do let t' ← P.rep P.q (S * A * S); let r' ← tab S A; pure (none, r', t')))
   P.bar
   let implQ ← tab S A
   let implV ← P.rep P.q S
@@ -368,15 +469,27 @@ def ps : P String := do
   let viQ ← tab S A
   P.eof
   if A == 0 || S == 0 then P.fail
-  let m0 := mkMDP S A γ T R                  -- the MDP the learner was given (L3 is evaluated against it)
-  let stepF := psStepOf kind m0 (fun s a s1 => R3.getD ((s * A + a) * S + s1) 0) θ
+  -- the MDP in force at the end (L3 is evaluated against it): the last re-synced one, else the one given at construction
+  let lastModel := ops.foldl (fun (acc : List Rat × Rows) o => if o.2.2.isEmpty then acc else (o.2.2, o.2.1)) (T, R)
+  let m0 := mkMDP S A γ lastModel.1 lastModel.2
+  let stepOf := fun (m : MDP) => psStepOf kind m (fun s a s1 => R3.getD ((s * A + a) * S + s1) 0) θ
+  let stepF := stepOf m0
   let comp := if kind == "generic" then "PrioritizedSweeping.generic" else "PrioritizedSweeping"
   let v : Verdict := { tag := s!"ps-{kind}" }
   -- model: same explicit steps, then pop max-priority until empty (fuel bounds the run)
-  let st0 := order.foldl (fun st (p : Nat × Nat) =>
-      let st' := stepF st p.1 p.2
-      { st' with q := ofRows (toRows S A st'.q), v := ofVec (toVec S st'.v), done := [] }) PS.init
+  let st0 := (ops.foldl (fun (ms : MDP × PS) (o : Option (Nat × Nat) × Rows × List Rat) =>
+      match o.1 with
+      | some p =>
+        let st' := stepOf ms.1 ms.2 p.1 p.2
+        (ms.1, { st' with q := ofRows (toRows S A st'.q), v := ofVec (toVec S st'.v), done := [] })
+      | none =>
+        if o.2.2.isEmpty then (ms.1, { ms.2 with q := ofRows o.2.1, done := [] })
+        else (mkMDP S A γ o.2.2 o.2.1, { ms.2 with done := [] })) (mkMDP S A γ T R, PS.init)).2
   let (stF, left) := psGo stepF S A 200000 st0
+  -- the pairs stepped explicitly AFTER the last setQFunction (theorem ps_fixed_point_setq)
+  let order := ops.foldl (fun (acc : List (Nat × Nat)) o => match o.1 with | some p => p :: acc | none => []) []
+  let usedSetQ := ops.any (fun o => o.1.isNone && o.2.2.isEmpty)
+  let usedResync := ops.any (fun o => !o.2.2.isEmpty)
   let covered := (List.range S).all (fun s => (List.range A).all (fun a => order.contains (s, a)))
   let mQ := toRows S A stF.q
   let tolPS : Rat := 1 / 10000000
@@ -393,6 +506,8 @@ def ps : P String := do
       let vOK := ((List.range S).zip implV).all (fun (s, x) => x == maxA A (qi s))
       v.failIf (!vOK) s!"{comp} value_not_row_max"
     else { v with tag := v.tag ++ " uncovered" }
+  let v := if usedSetQ then { v with tag := v.tag ++ " setq" } else v
+  let v := if usedResync then { v with tag := v.tag ++ " resync" } else v
   return v.render
 
 /-! ### DynaQ batch on a deterministic model -/
@@ -425,6 +540,113 @@ def dynab : P String := do
     v := v.diffIf (!(cands.any (fun c => closeRows tolStep c out))) s!"DynaQ batch {k} is not a QLearning step on a visited pair impl={showRows out}"
     prev := out
   P.eof
+  return v.render
+
+/-- `dynam kind S A γ N star T[S*A*S] R[S×A] rmin rmax nev events…` : DynaQ over the library's own Model / SparseModel.
+    event = `1 s a s1 r α table` (stepUpdateQ) | `0 α table` (batchUpdateQ: N planning passes, each a QLearning step on a visited
+    pair towards a successor `model.sampleSR` can return, with the model's reward R(s,a)).  The visited list is carried by the model
+    (`dynaStep`).  Clauses on the implementation's own tables: bounds (zero start, all rewards seen in [rmin,rmax] which includes the
+    model's rewards), and — `star` — once the sweep has produced Q* of the deterministic model, no batch may change it. -/
+def dynam : P String := do
+  let mkind ← P.tok
+  let S ← P.nat; let A ← P.nat; let γ ← P.q; let N ← P.nat; let star ← P.nat
+  let T ← P.rep P.q (S * A * S)
+  let R ← tab S A
+  let rmin ← P.q; let rmax ← P.q
+  let nev ← P.nat
+  if A == 0 || S == 0 || N == 0 then P.fail
+  let m0 := mkMDP S A γ T R
+  let rq := ofRows R
+  let succs := fun (s a : Nat) => (List.range S).filter (fun s1 => decide (0 < m0.T s a s1))
+  let zero : Rows := (List.range S).map (fun _ => (List.range A).map (fun _ => (0 : Rat)))
+  let lo := loC rmin γ
+  let hi := hiC rmax γ
+  let slack := tolRun * (1 + absQ lo + absQ hi)
+  let mut prev := zero
+  let mut vis : List (Nat × Nat) := []
+  let mut v : Verdict := { tag := s!"dynam-{mkind}" ++ (if star == 1 then " star" else "") }
+  let mut hypOK := decide (0 ≤ γ) && decide (γ < 1)
+  let mut qstar : Option Rows := none
+  let mut batches := 0
+  for k in [0:nev] do
+    let kind ← P.nat
+    if kind == 1 then
+      let s ← P.nat; let a ← P.nat; let s1 ← P.nat; let r ← P.q; let α ← P.q
+      let out ← tab S A
+      if !(s < S && a < A && s1 < S) then P.fail
+      let d := dynaStep γ α A ⟨ofRows prev, vis⟩ s a s1 r
+      let m1 := toRows S A d.q
+      v := v.diffIf (!(closeRows tolStep m1 out)) s!"DynaQ event {k} stepUpdateQ model={showRows m1} impl={showRows out}"
+      vis := d.visited
+      if !(decide (rmin ≤ r) && decide (r ≤ rmax) && decide (0 < α) && decide (α ≤ 1)) then hypOK := false
+      prev := out
+    else
+      let α ← P.q
+      let out ← tab S A
+      batches := batches + 1
+      if !(decide (0 < α) && decide (α ≤ 1)) then hypOK := false
+      -- all tables reachable by N planning passes (deduplicated after every pass)
+      let passOnce (tabs : List Rows) : List Rows :=
+        (tabs.flatMap (fun t => vis.flatMap (fun (s, a) => (succs s a).map (fun s1 => toRows S A (qlStep γ α A (ofRows t) s a s1 (rq s a)))))).eraseDups
+      let cands := if vis.isEmpty then [prev] else (List.range N).foldl (fun tabs _ => passOnce tabs) [prev]
+      v := v.diffIf (!(cands.any (fun c => closeRows tolStep c out)))
+        s!"DynaQ event {k} batchUpdateQ is not {N} QLearning step(s) on visited pairs with the model's samples impl={showRows out} candidates={cands.length}"
+      -- clause 2: Q* of the deterministic model, once reached, is kept by every planning pass
+      if star == 1 then
+        if qstar.isNone then
+          let q0 := ofRows prev
+          let isDet := (List.range S).all (fun s => (List.range A).all (fun a => (succs s a).length == 1))
+          let isStar := isDet && (List.range S).all (fun s => (List.range A).all (fun a =>
+            q0 s a == rq s a + γ * maxA A (q0 ((succs s a).headD 0))))
+          let allVisited := (List.range (S - 1)).all (fun s => (List.range A).all (fun a => vis.contains (s, a)))
+          if isStar && allVisited then qstar := some prev
+        match qstar with
+        | some qs => v := v.failIf (!(eqRows out qs)) s!"DynaQ qstar_not_fixed event {k} table={showRows out} qstar={showRows qs}"
+        | none => pure ()
+      prev := out
+    if hypOK then
+      match firstOutside lo hi slack prev with
+      | some (s', a', x) => v := v.failIf true s!"DynaQ td_out_of_bounds event {k} entry ({s'},{a'}) = {ratStr x} outside [{ratStr lo},{ratStr hi}]"
+      | none => pure ()
+  P.eof
+  if star == 1 && qstar.isSome then v := { v with tag := v.tag ++ " qstar" }
+  if star == 1 && qstar.isNone then v := { v with tag := v.tag ++ " hyp-not-met" }
+  if hypOK then v := { v with tag := v.tag ++ " bounds" }
+  if batches == 0 then v := { v with tag := v.tag ++ " trivial" }
+  return v.render
+
+/-- `rl S A α ρ init n (s a s1 r table ravg)*n` : RLearning as written (no clause of C11 applies: correspondence only) -/
+def rl : P String := do
+  let S ← P.nat; let A ← P.nat; let α ← P.q; let ρ ← P.q
+  let init ← tab S A
+  let n ← P.nat
+  if A == 0 || S == 0 then P.fail
+  let mut prev := init
+  let mut ravg : Rat := 0
+  let mut v : Verdict := { tag := "rl" }
+  let mut ill := false
+  for k in [0:n] do
+    let s ← P.nat; let a ← P.nat; let s1 ← P.nat; let r ← P.q
+    let out ← tab S A
+    let outR ← P.q
+    if !(s < S && a < A && s1 < S) then P.fail
+    if ill then continue
+    let st := rlStep α ρ A ⟨ofRows prev, ravg⟩ s a s1 r
+    let m1 := toRows S A st.q
+    -- the branch `checkEqualGeneral(q(s,a), max)` is decided on rounded values: near its thresholds the step is ill-conditioned
+    let cur := maxA A (st.q s)
+    let d := absQ (st.q s a - cur)
+    let thr := if absQ (st.q s a) < absQ cur then absQ (st.q s a) * AITB.Pol.tolG else absQ cur * AITB.Pol.tolG
+    if d != 0 && (closeQ (1 / 1000) d AITB.Pol.tolS || (decide (AITB.Pol.tolS < d) && closeQ (1 / 1000) d thr)) then
+      ill := true
+      continue
+    let sc := 1 + maxAbsRows m1 + absQ st.ravg
+    v := v.diffIf (!(closeRowsScaled tolStep m1 out)) s!"RLearning step {k} table model={showRows m1} impl={showRows out}"
+    v := v.diffIf (!(decide (absQ (st.ravg - outR) ≤ tolStep * sc))) s!"RLearning step {k} average reward model={ratStr st.ravg} impl={ratStr outR}"
+    prev := out; ravg := outR
+  P.eof
+  if ill then return "skip ill_conditioned"
+  if n == 0 then v := { v with tag := v.tag ++ " trivial" }
   return v.render
 
 /-- `tolguard L tol` : the constructor rejected a cut-off above one with std::invalid_argument (repaired library) -/
@@ -469,16 +691,19 @@ def psw : P String := do
   for k in [0:nev] do
     let kind ← P.nat
     let (s, a) ← if kind == 1 then (do let s ← P.nat; let a ← P.nat; pure (s, a)) else pure (0, 0)
+    let newQ ← if kind == 2 then tab S A else pure []
     let outQ ← tab S A
     let outV ← P.rep P.q S
     let qlen ← P.nat
     if kind == 1 && !(s < S && a < A) then P.fail
     lastQ := outQ; lastLen := qlen
     if kind == 1 then stepped := (s, a) :: stepped
+    if kind == 2 then stepped := []
     if ill then continue
     let candsOf (queue : List QE) : List PS :=
       let base : PS := { q := ofRows q, v := ofVec vv, queue := queue, done := [] }
       if kind == 1 then [stepF base s a]
+      else if kind == 2 then [{ base with q := ofRows newQ }]
       else if queue.isEmpty then [base]
       else (topCands queue).filterMap (fun i => (queue[i]?).map (fun e => stepF { base with queue := removeAt queue i } e.s e.a))
     let cands := queues.flatMap candsOf
@@ -524,16 +749,11 @@ def psw : P String := do
 
 /-! ### Dyna2 (model: AITB.Model.Dyna2) -/
 
-/-- the simulated samples of `batchUpdateQ(s0)` on the deterministic model with the deterministic internal policy
-    (no terminal states in the harness model, so the chain never restarts) -/
-def d2Sims (nextF : Nat → Nat → Nat) (rq : QF) (pol : Nat → Nat) : Nat → Nat → Nat → List Smp
-  | 0, _, _ => []
-  | n+1, s, a => let s1 := nextF s a; let a1 := pol s1; ⟨s, a, s1, a1, rq s a⟩ :: d2Sims nextF rq pol n s1 a1
-
-/-- `dyna2 S A γ α λP λT tol N next[S×A] rew[S×A] act[S] n events…`; event = `1 s a s1 a1 r` (stepUpdateQ) | `2 s0`
+/-- `dyna2 kind S A γ α λP λT tol N next[S×A] rew[S×A] act[S] n events…`; event = `1 s a s1 a1 r` (stepUpdateQ) | `2 s0`
     (batchUpdateQ(s0)) | `3` (resetTransientLearning); after each: permanent table, transient table.  Traces are not
     observable through Dyna2 and are carried by the model; both tables are re-synchronised after every event. -/
 def dyna2 : P String := do
+  let mkind ← P.tok
   let S ← P.nat; let A ← P.nat; let γ ← P.q; let α ← P.q; let lamP ← P.q; let lamT ← P.q; let tol ← P.q; let N ← P.nat
   let nextR ← P.rep (P.rep P.nat A) S
   let rew ← tab S A
@@ -543,6 +763,10 @@ def dyna2 : P String := do
   let nextF := fun (s a : Nat) => (nextR.getD s []).getD a 0
   let rq := ofRows rew
   let pol := fun (s : Nat) => act.getD s 0
+  -- `model_.isTerminal(s)`: for the library's Model / SparseModel "every action stays in s with probability 1 (±1e-6)", for the
+  -- harness's own model either the same rule ("det-term") or never ("det")
+  let termL := (List.range S).map (fun s => mkind != "det" && (List.range A).all (fun a => nextF s a == s))
+  let term := fun (s : Nat) => termL.getD s false
   let zero : Rows := (List.range S).map (fun _ => (List.range A).map (fun _ => (0 : Rat)))
   let mut qP := zero
   let mut qT := zero
@@ -551,7 +775,7 @@ def dyna2 : P String := do
   -- a stand-alone SARSA(λP) learner fed with the real steps only (theorem d2_permanent_is_sarsal), windowed
   let mut soloT : List Tr := []
   let mut soloQ := zero
-  let mut v : Verdict := { tag := "dyna2" }
+  let mut v : Verdict := { tag := s!"dyna2-{mkind}" ++ (if termL.any id then " terminal" else "") }
   let mut ill := false
   let mut rlo : Rat := 0
   let mut rhi : Rat := 0
@@ -576,7 +800,7 @@ def dyna2 : P String := do
       ill := true
       continue
     let d : D2 := ⟨trP, ofRows qP, trT, ofRows qT⟩
-    let sims := if kind == 2 then d2Sims nextF rq pol N s0 (pol s0) else []
+    let sims := if kind == 2 then d2Chain nextF rq pol term s0 N s0 (pol s0) else []
     let d' := if kind == 1 then d2Step γ α lamP lamT tol d e else if kind == 2 then d2Batch γ α lamT tol d sims else d2Reset d
     let rP := toRows S A d'.qP
     let rT := toRows S A d'.qT
@@ -622,9 +846,12 @@ def handle (toks : List String) : String :=
     | "tolguard" :: rest => P.run tolguard rest
     | "td" :: rest => P.run td rest
     | "tr" :: rest => P.run tr rest
+    | "trp" :: rest => P.run trp rest
     | "ps" :: rest => P.run ps rest
     | "psw" :: rest => P.run psw rest
     | "dynab" :: rest => P.run dynab rest
+    | "dynam" :: rest => P.run dynam rest
+    | "rl" :: rest => P.run rl rest
     | "dyna2" :: rest => P.run dyna2 rest
     | _ => none
   r.getD "bad-op"
